@@ -91,7 +91,7 @@ def r29(ctx: Ctx) -> RuleReport:
         if isinstance(n, ast.BinOp) and isinstance(n.op, ast.Add) and norm(n.left) == p2 and try_fold(n.right) == (True, '-of'):
             add = n
     if strip is None or add is None:
-        rep.violation(f'{ir.fq}: one branch strips -of and the other appends it', ir.loc(),
+        rep.undecided(f'{ir.fq}: one branch strips -of and the other appends it', ir.loc(),
                       f'strip={norm(strip) if strip else None} append={norm(add) if add else None}')
     else:
         # the two rewrites sit in the two arms of one `if`
@@ -135,7 +135,7 @@ def r29(ctx: Ctx) -> RuleReport:
             facts = facts_at(cfg, IN, pm, c)
             if (f'self.is_role_inverted({tp}[1])', True) in facts and len(c.args) == 1 and norm(c.args[0]) == tp:
                 good = True
-        rep.add(f'{de.fq}: inverts exactly when is_role_inverted(triple[1])', de.loc(), 'ok' if good else 'violation',
+        rep.add(f'{de.fq}: inverts exactly when is_role_inverted(triple[1])', de.loc(), 'ok' if good else 'undecided',
                 '' if good else 'no call of self.invert(triple) guarded by self.is_role_inverted(triple[1])')
         in_loop = False
         for c in inv_calls:
@@ -149,7 +149,7 @@ def r29(ctx: Ctx) -> RuleReport:
                 'reading forbids (only canonicalisation removes pairs of inversions)' if in_loop else '')
         rets = [n for n in walk_local(de.node) if isinstance(n, ast.Return)]
         rep.add(f'{de.fq}: returns the (possibly inverted) triple', de.loc(),
-                'ok' if rets and all(r.value is not None and norm(r.value) == tp for r in rets) else 'violation')
+                'ok' if rets and all(r.value is not None and norm(r.value) == tp for r in rets) else 'undecided')
     # has_role
     hr = repo.func(M, 'Model.has_role')
     p3 = hr.positional[1]
@@ -166,7 +166,7 @@ def r29(ctx: Ctx) -> RuleReport:
     src = norm(_ret_expr(ctx, h))
     rep.add(f'{h.fq}: membership is a match of the anchored role pattern', h.loc(),
             'ok' if src in ('self._role_re.match(role) is not None', 'self._role_re.fullmatch(role) is not None',
-                            'bool(self._role_re.match(role))') else 'violation', src)
+                            'bool(self._role_re.match(role))') else 'undecided', src)
     init = repo.func(M, 'Model.__init__')
     pat = None
     for n in walk_local(init.node):
@@ -183,7 +183,7 @@ def r29(ctx: Ctx) -> RuleReport:
                 inner = norm(j.args[0]) if j.args else ''
                 okp = 'self.roles' in inner and 'top_role' in inner and 'concept_role' in inner
     rep.add(f'{init.fq}: the role pattern is ^(alternatives of all roles, top role, concept role)$', init.loc(),
-            'ok' if okp else 'violation', norm(pat)[:100] if pat is not None else 'no pattern')
+            'ok' if okp else 'undecided', norm(pat)[:100] if pat is not None else 'no pattern')
     return rep
 
 
@@ -201,14 +201,14 @@ def r40(ctx: Ctx) -> RuleReport:
             loop = n
             break
     if loop is None:
-        rep.violation(f'{fi.fq}: loop over all of graph.triples', fi.loc(), 'no `for ... in graph.triples` loop (a slice or a filtered list skips triples)')
+        rep.undecided(f'{fi.fq}: loop over all of graph.triples', fi.loc(), 'no `for ... in graph.triples` loop (a slice or a filtered list skips triples)')
         return rep
     rep.ok(f'{fi.fq}: loop over all of graph.triples', fi.loc(loop))
     head = cfg.node_of(loop)
     tests = [nd for nd in cfg.nodes if nd.kind == 'cond' and 'self.has_role(' in norm(nd.ast)
              and any(x is nd.ast for x in ast.walk(loop))]
     if len(tests) != 1:
-        rep.violation(f'{fi.fq}: one role test per triple', fi.loc(loop), f'{len(tests)} has_role tests in the loop')
+        rep.undecided(f'{fi.fq}: one role test per triple', fi.loc(loop), f'{len(tests)} has_role tests in the loop')
         return rep
     t = tests[0]
     path = cfg.path_avoiding([(head, 'T')], {head, cfg.exit, cfg.rexit}, lambda nd: nd.id == t.id)
@@ -226,7 +226,7 @@ def r40(ctx: Ctx) -> RuleReport:
             if isinstance(n, ast.Assign) and isinstance(n.targets[0], ast.Tuple) and len(n.targets[0].elts) == 3 \
                     and isinstance(n.value, ast.Name) and n.value.id == tv and norm(n.targets[0].elts[1]) == arg.id:
                 role_ok = True
-    rep.add(f'{fi.fq}: the tested role is the role of the triple', fi.loc(call), 'ok' if role_ok else 'violation', norm(call))
+    rep.add(f'{fi.fq}: the tested role is the role of the triple', fi.loc(call), 'ok' if role_ok else 'undecided', norm(call))
     # the message is recorded under the triple when (and only when) the test fails
     apps = [n for n in ast.walk(loop) if isinstance(n, ast.Call) and isinstance(n.func, ast.Attribute) and n.func.attr == 'append'
             and n.args and try_fold(n.args[0]) == (True, 'invalid role')]
@@ -236,11 +236,11 @@ def r40(ctx: Ctx) -> RuleReport:
         if (norm(call), False) in facts and tv and norm(a.func.value).endswith(f'[{tv}]'):
             good = True
     rep.add(f'{fi.fq}: "invalid role" is recorded for the triple exactly when has_role fails', fi.loc(loop),
-            'ok' if good else 'violation')
+            'ok' if good else 'undecided')
     # unreachable: sorted iteration (R13 classifies it), messages per triple of the unreachable variable
     apps2 = [n for n in walk_local(fi.node) if isinstance(n, ast.Call) and isinstance(n.func, ast.Attribute)
              and n.func.attr == 'append' and n.args and try_fold(n.args[0]) == (True, 'unreachable')]
-    rep.add(f'{fi.fq}: "unreachable" is recorded per triple', fi.loc(), 'ok' if apps2 else 'violation')
+    rep.add(f'{fi.fq}: "unreachable" is recorded per triple', fi.loc(), 'ok' if apps2 else 'undecided')
     # _dfs: adjacency restricted to variables of the graph, made symmetric
     dfs = ctx.repo.func(M, '_dfs')
     gparam = dfs.positional[0]
@@ -252,11 +252,11 @@ def r40(ctx: Ctx) -> RuleReport:
                        and norm(c.comparators[0]) == gparam) for c in g.ifs):
                     restricted = True
     rep.add(f'{dfs.fq}: only targets that are variables of the graph become neighbours', dfs.loc(),
-            'ok' if restricted else 'violation',
+            'ok' if restricted else 'undecided',
             '' if restricted else 'constants are treated as nodes: two components sharing a constant would count as connected')
     sym = any(isinstance(n, ast.Call) and isinstance(n.func, ast.Attribute) and n.func.attr == 'add'
               and isinstance(n.func.value, ast.Subscript) for n in walk_local(dfs.node))
-    rep.add(f'{dfs.fq}: edges are made bidirectional', dfs.loc(), 'ok' if sym else 'violation')
+    rep.add(f'{dfs.fq}: edges are made bidirectional', dfs.loc(), 'ok' if sym else 'undecided')
     return rep
 
 
@@ -297,11 +297,11 @@ def r23model(ctx: Ctx) -> RuleReport:
         if s2 is None and isinstance(ret.elts[2], ast.Name) and unpack and ret.elts[2].id in unpack:
             s2 = unpack.index(ret.elts[2].id)
         good = (s0, s2) == (2, 0) and mid_ok
-    rep.add(f'{inv.fq}: returns (target, invert_role(role), source)', inv.loc(), 'ok' if good else 'violation', norm(ret))
+    rep.add(f'{inv.fq}: returns (target, invert_role(role), source)', inv.loc(), 'ok' if good else 'undecided', norm(ret))
     noop = repo.func('penman.models.noop', 'NoOpModel.deinvert')
     r = _ret_expr(ctx, noop)
     rep.add(f'{noop.fq}: returns its argument unchanged', noop.loc(),
-            'ok' if isinstance(r, ast.Name) and r.id == noop.positional[1] and not ctx.cg.local_assigns(noop).get(r.id) else 'violation', norm(r))
+            'ok' if isinstance(r, ast.Name) and r.id == noop.positional[1] and not ctx.cg.local_assigns(noop).get(r.id) else 'undecided', norm(r))
     nm = repo.cls('penman.models.noop', 'NoOpModel')
     extra = sorted(set(nm.methods) - {'deinvert'})
     rep.add('penman.models.noop:NoOpModel overrides deinvert only', nm.module.relpath, 'ok' if not extra else 'info',
@@ -311,20 +311,20 @@ def r23model(ctx: Ctx) -> RuleReport:
     ints = [n for n in walk_local(an.node) if isinstance(n, ast.Call) and isinstance(n.func, ast.Name) and n.func.id == 'int']
     rx = [n for n in walk_local(an.node) if isinstance(n, ast.Call) and norm(n.func) == 're.match']
     pat_ok = bool(rx) and try_fold(rx[0].args[0]) == (True, r'(.*\D)(\d+)$')
-    rep.add(f'{an.fq}: numeric suffix is compared as an integer', an.loc(), 'ok' if ints and pat_ok else 'violation',
+    rep.add(f'{an.fq}: numeric suffix is compared as an integer', an.loc(), 'ok' if ints and pat_ok else 'undecided',
             '' if ints and pat_ok else 'suffix not split by (.*\\D)(\\d+)$ and converted with int()')
     r = _ret_expr(ctx, an)
     rn = [norm(single_def(ctx, an, e)) for e in r.elts] if isinstance(r, ast.Tuple) else []
-    rep.add(f'{an.fq}: key is (name, number)', an.loc(), 'ok' if len(rn) == 2 else 'violation', str(rn))
+    rep.add(f'{an.fq}: key is (name, number)', an.loc(), 'ok' if len(rn) == 2 else 'undecided', str(rn))
     co = repo.func(M, 'Model.canonical_order')
     r = _ret_expr(ctx, co)
     good = isinstance(r, ast.Tuple) and len(r.elts) == 2 and norm(r.elts[0]) == f'self.is_role_inverted({co.positional[1]})' \
         and norm(r.elts[1]) == f'self.alphanumeric_order({co.positional[1]})'
     rep.add(f'{co.fq}: key is (is_role_inverted, alphanumeric_order): inverted roles last', co.loc(),
-            'ok' if good else 'violation', norm(r))
+            'ok' if good else 'undecided', norm(r))
     oo = repo.func(M, 'Model.original_order')
     r = _ret_expr(ctx, oo)
-    rep.add(f'{oo.fq}: constant key (stable sort keeps the order)', oo.loc(), 'ok' if isinstance(r, ast.Constant) else 'violation')
+    rep.add(f'{oo.fq}: constant key (stable sort keeps the order)', oo.loc(), 'ok' if isinstance(r, ast.Constant) else 'undecided')
     return rep
 
 
@@ -347,7 +347,7 @@ def r24m(ctx: Ctx) -> RuleReport:
                     and norm(v.args[0]) == p and norm(v.args[1]) == p:
                 normz = n
     for nm, st in (('adds the colon', colon), ('normalises inversions', inv), ('looks the result up in the normalisation table', normz)):
-        rep.add(f'{fi.fq}: {nm}', fi.loc(st) if st else fi.loc(), 'ok' if st is not None else 'violation',
+        rep.add(f'{fi.fq}: {nm}', fi.loc(st) if st else fi.loc(), 'ok' if st is not None else 'undecided',
                 '' if st is not None else 'step not found in the accepted form `role = <step>(role)`')
     if colon is not None and inv is not None and normz is not None:
         nc, ni, nn = cfg.node_of(colon), cfg.node_of(inv), cfg.node_of(normz)
@@ -364,11 +364,11 @@ def r24m(ctx: Ctx) -> RuleReport:
         rep.add(f'{fi.fq}: the normalised-inversion role is what is looked up', fi.loc(normz), 'violation' if skip2 else 'ok',
                 'a path from inversion normalisation reaches the return without the table lookup' if skip2 else '')
     rets = [n for n in walk_local(fi.node) if isinstance(n, ast.Return)]
-    rep.add(f'{fi.fq}: returns the rewritten role', fi.loc(), 'ok' if all(r.value is not None and norm(r.value) == p for r in rets) else 'violation')
+    rep.add(f'{fi.fq}: returns the rewritten role', fi.loc(), 'ok' if all(r.value is not None and norm(r.value) == p for r in rets) else 'undecided')
     # _canonicalize_inversion: removes -of in pairs (invert twice), loops to a fixpoint
     ci = ctx.repo.func(M, 'Model._canonicalize_inversion')
     calls = [n for n in walk_local(ci.node) if isinstance(n, ast.Call)]
     invs = [c for c in calls if norm(single_def(ctx, ci, c.func)) in ('self.invert_role', 'invert')]
     rep.add(f'{ci.fq}: each round applies invert_role twice (inversions go in pairs)', ci.loc(),
-            'ok' if len(invs) == 2 else 'violation', f'{len(invs)} invert_role applications per round')
+            'ok' if len(invs) == 2 else 'undecided', f'{len(invs)} invert_role applications per round')
     return rep
